@@ -68,6 +68,27 @@ type Component struct {
 	// Relax may widen the accept sets for documented cross-setting constraints. declared[si] is
 	// every value any present source of setting si declares, plus the default.
 	Relax func(accept, declared [][]int64) [][]int64
+	// RunSteps (jobs "order") hands the constructor an ordered list of option calls, one call per
+	// step, in exactly this order, and reads the effective values like Run does.
+	RunSteps func(steps []Step) Result
+}
+
+// Step is one option call: the option of setting Setting called with N.
+type Step struct {
+	Setting int   `json:"setting"`
+	N       int64 `json:"n"`
+}
+
+// StepsOf turns the option picks of a configuration point into a list of option calls in setting order
+// (what Run of a component with RunSteps does).
+func StepsOf(settings int, alt func(si, src int) *Alt) []Step {
+	var steps []Step
+	for si := 0; si < settings; si++ {
+		if a := alt(si, 0); a.Present {
+			steps = append(steps, Step{si, a.N})
+		}
+	}
+	return steps
 }
 
 type dim struct{ si, src int }
@@ -422,6 +443,145 @@ func ClearEnv() {
 		if k, _, _ := strings.Cut(kv, "="); strings.HasPrefix(k, "OTEL_") {
 			os.Unsetenv(k)
 		}
+	}
+}
+
+// ---------------------------------------------------------------------------- jobs "order" and "foreign"
+
+// setEnv puts every environment source of the component at alternative a (0 = unset, 1 = the first valid value).
+func (x *X) setEnv(a int) {
+	for _, s := range x.C.Settings {
+		for _, so := range s.Sources {
+			if so.Kind == "option" {
+				continue
+			}
+			if alt := so.Alts[a]; alt.Present {
+				os.Setenv(so.Env, alt.Env)
+			} else {
+				os.Unsetenv(so.Env)
+			}
+		}
+	}
+}
+
+// Order checks "a later option overrides an earlier one, any option overrides the environment" on
+// ordered option lists (Component.RunSteps): for every setting si that has an option, both orders of two
+// valid values A, B, alone and with one option M of every other setting before, between and after
+// them, with all variables unset and with every variable set to a valid value:
+//
+//	(1) the effective value of si is the LAST one handed over;
+//	(2) the whole effective value vector equals the one of the same list without the overridden call.
+//
+// (2) is what keeps (1) from depending on anything the other jobs judge (defaults, clamping).
+func (x *X) Order() {
+	c := x.C
+	type variant struct {
+		name      string
+		full, ref []Step
+	}
+	x.R.Bound("order_env_states", []string{"all variables unset", "every variable at its first valid value"})
+	x.R.Bound("order_lists", "per setting: [A,B] [B,A] and with one option M of each other setting as [M,A,B] [A,M,B] [A,B,M]; A = the valid option value, B = A+1")
+	for envState := 0; envState <= 1; envState++ {
+		for si, s := range c.Settings {
+			if s.Sources[0].Kind != "option" {
+				continue
+			}
+			v := s.Sources[0].Alts[1].N
+			for _, ab := range [][2]int64{{v, v + 1}, {v + 1, v}} {
+				A, B := Step{si, ab[0]}, Step{si, ab[1]}
+				vs := []variant{{"[A,B]", []Step{A, B}, []Step{B}}}
+				for mi, ms := range c.Settings {
+					if mi == si || ms.Sources[0].Kind != "option" {
+						continue
+					}
+					M := Step{mi, ms.Sources[0].Alts[1].N}
+					vs = append(vs,
+						variant{"[M,A,B]", []Step{M, A, B}, []Step{M, B}},
+						variant{"[A,M,B]", []Step{A, M, B}, []Step{M, B}},
+						variant{"[A,B,M]", []Step{A, B, M}, []Step{B, M}})
+				}
+				for _, vr := range vs {
+					if x.R.Expired() {
+						return
+					}
+					if !x.R.Want() {
+						continue
+					}
+					x.R.Count("configuration_points", 1)
+					x.setEnv(envState)
+					x.R.Evals(2)
+					full := c.RunSteps(vr.full)
+					ref := c.RunSteps(vr.ref)
+					x.R.Outcome(fmt.Sprint(c.Name, full.Panic != "", full.Values, full.Note))
+					cas := map[string]any{"component": c.Name, "setting": s.Name, "variables": []string{"unset", "valid"}[envState], "option_calls": vr.full,
+						"effective": full.Values, "panic": full.Panic, "option_calls_without_the_overridden": vr.ref, "effective_without": ref.Values}
+					x.R.Sample(func() any { return cas })
+					switch {
+					case full.Panic != "":
+						x.R.FailHere("panic|"+c.Name+"|order "+s.Name, cas, "%s with the option of %s called twice (%s, %v) panicked: %s", c.Name, s.Name, vr.name, vr.full, full.Panic)
+					case full.Values[si] != B.N:
+						x.R.FailHere("order|"+c.Name+"|"+s.Name, cas, "%s with option calls %s %v: effective %s = %d, the last call asks for %d", c.Name, vr.name, vr.full, s.Name, full.Values[si], B.N)
+					case ref.Panic == "" && fmt.Sprint(full.Values, full.Note) != fmt.Sprint(ref.Values, ref.Note):
+						x.R.FailHere("order|"+c.Name+"|"+s.Name, cas, "%s with option calls %s %v: effective values %v %s, without the overridden call %v %s", c.Name, vr.name, vr.full, full.Values, full.Note, ref.Values, ref.Note)
+					}
+				}
+			}
+		}
+	}
+	x.setEnv(0)
+}
+
+// KV is one foreign environment variable with a value that would be visible if it were read.
+type KV struct{ Name, Value string }
+
+// Foreign checks that variables which are not a source of this component do not influence it: for
+// four base configurations (nothing set / every variable valid / every option valid / both) every
+// foreign variable alone, then all at once, is set: the effective values must be the ones of the
+// base configuration.
+func (x *X) Foreign(vars []KV) {
+	var names []string
+	for _, v := range vars {
+		names = append(names, v.Name+"="+v.Value)
+	}
+	x.R.Bound("foreign_variables("+x.C.Name+")", names)
+	x.R.Bound("foreign_base_configurations", []string{"nothing set", "every variable valid", "every option valid", "both"})
+	for b := 0; b < 4; b++ {
+		ch := x.zero()
+		for si, s := range x.C.Settings {
+			for src, so := range s.Sources {
+				if (so.Kind == "option" && b&2 != 0) || (so.Kind != "option" && b&1 != 0) {
+					ch[si][src] = 1
+				}
+			}
+		}
+		res0, _ := x.Eval(ch)
+		_, bfull := x.Describe(ch, "")
+		check := func(set []KV, keyName string) {
+			if x.R.Expired() || !x.R.Want() {
+				return
+			}
+			x.R.Count("configuration_points", 1)
+			env := map[string]string{}
+			for _, v := range set {
+				os.Setenv(v.Name, v.Value)
+				env[v.Name] = v.Value
+			}
+			res, _ := x.Eval(ch)
+			for _, v := range set {
+				os.Unsetenv(v.Name)
+			}
+			x.R.Outcome(fmt.Sprint(x.C.Name, res.Panic != "", res.Values, res.Note))
+			cas := map[string]any{"component": x.C.Name, "base_configuration": bfull, "foreign": env, "effective": res.Values, "panic": res.Panic, "effective_without": res0.Values}
+			x.R.Sample(func() any { return cas })
+			if fmt.Sprint(res) != fmt.Sprint(res0) {
+				x.R.FailHere("foreign|"+x.C.Name+"|"+keyName, cas, "%s: setting %v changes the component: effective %v %s%s, without it %v %s%s", x.C.Name, env,
+					res.Values, res.Note, res.Panic, res0.Values, res0.Note, res0.Panic)
+			}
+		}
+		for _, v := range vars {
+			check([]KV{v}, v.Name)
+		}
+		check(vars, "all foreign variables at once")
 	}
 }
 
